@@ -152,9 +152,9 @@ fn scope(m: &Model, ctx: &mut Ctx) {
 /// references inside the current definition (constraint references, DEFAULT/value linking, recursion marking): each
 /// step runs once per name, so whatever is imported after the resolving steps stays unresolved whenever the
 /// referenced definition has not been linked yet — which depends only on how the two names sort.
-fn order(m: &Model, ctx: &mut Ctx) {
+pub fn order(m: &Model, ctx: &mut Ctx, rule: &str) {
     let Some(f) = m.fns.iter().find(|f| f.name == "link" && f.self_ty.as_deref() == Some("Validator")) else {
-        ctx.fail_closed("C09.order", "anchor not found: Validator::link");
+        ctx.fail_closed(rule, "anchor not found: Validator::link");
         return;
     };
     ctx.func(&f.key);
@@ -174,7 +174,7 @@ fn order(m: &Model, ctx: &mut Ctx) {
     let mut w = W { body: None };
     model::deep_walk_block(&f.block, &mut w);
     let Some(body) = w.body else {
-        ctx.fail_closed("C09.order", "Validator::link: the loop over the popped keys was not found");
+        ctx.fail_closed(rule, "Validator::link: the loop over the popped keys was not found");
         return;
     };
     let importers = ["resolve_class_reference", "link_components_of_notation", "link_choice_selection_type", "link_object_set_reference", "resolve_object_set_references"];
@@ -191,25 +191,25 @@ fn order(m: &Model, ctx: &mut Ctx) {
     }
     for n in importers.iter().chain(resolvers.iter()) {
         if !pos.contains_key(*n) {
-            ctx.fail_closed("C09.order", &format!("Validator::link: step `{}` not found as a statement of the key loop", n));
+            ctx.fail_closed(rule, &format!("Validator::link: step `{}` not found as a statement of the key loop", n));
         }
     }
     // COMPONENTS OF copies the referenced type's components as they stand; notations inside the copies (selection
     // types, object-set references) are expanded only by the steps that follow it on the same key
     for later in ["link_choice_selection_type", "link_object_set_reference"] {
         let (Some((pc, lc)), Some((pl, _))) = (pos.get("link_components_of_notation"), pos.get(later)) else { continue };
-        ctx.oblige("C09.order", &format!("link_components_of_notation<{}", later), true);
+        ctx.oblige(rule, &format!("link_components_of_notation<{}", later), true);
         if pc >= pl {
-            ctx.violate("C09.order", &format!("link_components_of_notation-after-{}", later), &f.file, *lc,
+            ctx.violate(rule, &format!("link_components_of_notation-after-{}", later), &f.file, *lc,
                 &format!("Validator::link runs `link_components_of_notation` after `{}`: components copied from a type that has not been linked yet keep their unexpanded notation (a selection type then reaches the generator, which does not expect it), depending only on how the two names sort", later));
         }
     }
     for imp in importers {
         for res in resolvers {
             let (Some((pi, li)), Some((pr, _))) = (pos.get(imp), pos.get(res)) else { continue };
-            ctx.oblige("C09.order", &format!("{}<{}", imp, res), true);
+            ctx.oblige(rule, &format!("{}<{}", imp, res), true);
             if pi >= pr {
-                ctx.violate("C09.order", &format!("{}-after-{}", imp, res), &f.file, *li,
+                ctx.violate(rule, &format!("{}-after-{}", imp, res), &f.file, *li,
                     &format!("Validator::link runs `{}` (which copies parts of another definition into the current one) after `{}`: what it copies from a definition that has not been linked yet is never resolved, so the result depends on whether the referenced name sorts before or after the referencing one", imp, res));
             }
         }
@@ -374,7 +374,7 @@ Not applicable: the equivalence sugared = expanded itself, independence from the
     }
 
     scope(m, ctx);
-    order(m, ctx);
+    order(m, ctx, "C09.order");
     params(m, ctx);
     constraint_pairs(m, ctx, "C09.sym");
 
